@@ -32,7 +32,8 @@ def s_case(draw):
     spec = draw(ML.tree(domain, depth))
     value = draw(ML.VALUES[domain])
     fs = draw(ML.FS) if ML.uses_domain(spec, "path") else None
-    return {"domain": domain, "matcher": spec, "value": value, "fs": fs}
+    return {"domain": domain, "matcher": spec, "value": value, "fs": fs,
+            "dict_flavour": draw(st.sampled_from(["dict", "dict", "defaultdict", "Counter"])) if domain == "dict" else "dict"}
 
 
 def run_case(spec):
@@ -46,6 +47,7 @@ def _run_case(spec):
     vs = []
     domain, ms, value = spec["domain"], spec["matcher"], spec["value"]
     with ML.Env(spec.get("fs")) as env:
+        env.dict_flavour = spec.get("dict_flavour", "dict")      # dict subclasses with __missing__ are dicts too
         try:
             want = ML.ref(ms, value, env)
         except ML.Propagates as p:
@@ -130,10 +132,43 @@ def _enum(max_leaves):
     return gen
 
 
+def _enum_fs_and_raises():
+    """Small exhaustive grids for the sparse corners: filesystem matchers x scratch-directory shapes, and
+    Raises/raises x every kind of raised error (incl. non-Exception ones, matched and unmatched)."""
+    M = ML.M
+    perms = ["0644", "0600", "0755", "1644", "1755", "0777"]
+    for mode in ["0644", "0600", "0755", "1644", "1755"]:
+        fs = {"file_a": "hello", "file_a_mode": mode, "file_b": "x", "dir_a": ["inner", "x"], "tar_a": ["m1", "d/m3"]}
+        for perm in perms:
+            for path in ("file_a", "link_a"):
+                yield {"domain": "path", "matcher": M("HasPermissions", "path", perm=perm), "value": path, "fs": fs}
+                yield {"domain": "path", "matcher": M("Not", "path", inner=M("HasPermissions", "path", perm=perm)), "value": path, "fs": fs}
+    fs = {"file_a": "hello\n", "file_a_mode": "0644", "file_b": "hello", "dir_a": ["inner", "y"], "tar_a": ["m2"]}
+    leaves = [M("PathExists", "path"), M("DirExists", "path"), M("FileExists", "path"), M("DirContains", "path", filenames=["inner", "y"]),
+              M("DirContains", "path", filenames=[]), M("FileContains", "path", contents="hello\n"), M("FileContains", "path", contents="hello"),
+              M("SamePath", "path", other="file_a"), M("SamePath", "path", other="dir_a/../file_a"), M("SamePath", "path", other="link_a"),
+              M("TarballContains", "path", paths=["m2"]), M("TarballContains", "path", paths=[])]
+    for lf in leaves:
+        for path in ML.PATH_NAMES:
+            yield {"domain": "path", "matcher": lf, "value": path, "fs": fs}
+    raised = ["ValueError", "KeyError", "LookupError", "CustomError", "KeyboardInterrupt", "SystemExit", "CustomBase"]
+    expected = raised + ["Exception", "BaseException", "ArithmeticError"]
+    callables = [{"ret": 1}] + [{"raise": {"exc": e, "args": ["boom"]}} for e in raised]
+    for c in callables:
+        yield {"domain": "callable", "matcher": M("Raises", "callable", inner=None), "value": c, "fs": None}
+        for e in expected:
+            yield {"domain": "callable", "matcher": M("raises", "callable", form="type", exc=e), "value": c, "fs": None}
+            yield {"domain": "callable", "matcher": M("Not", "callable", inner=M("raises", "callable", form="type", exc=e)), "value": c, "fs": None}
+            yield {"domain": "callable", "matcher": M("Raises", "callable", inner=M("MatchesException", "exc_info", form="type", exc=e, value_re="bo+m")), "value": c, "fs": None}
+        yield {"domain": "callable", "matcher": M("Raises", "callable", inner=M("MatchesException", "exc_info", form="tuple", excs=["KeyError", "CustomError"])), "value": c, "fs": None}
+
+
 def subchecks(tier):
     q = tier == "quick"
     return [
         Sub("random_trees", run_case, s_case(), 4000 if q else 300000),
+        Sub("filesystem_and_raises_grid", run_case, enum=_enum_fs_and_raises, enum_complete=True,
+            note="HasPermissions x 5 modes x 6 octal strings; 12 filesystem leaves x 9 paths; Raises/raises x 8 callables x 10 expected classes"),
         Sub("enumerated_list_combinators", run_case, enum=_enum(2 if q else 3), enum_complete=True,
             note="AllMatch/AnyMatch/Not(AnyMatch)/MatchesSetwise/MatchesListwise over every tuple of <= %d leaves from a "
                  "9-leaf int alphabet x every list over {0,1,2} of length <= 3" % (2 if q else 3)),
